@@ -32,6 +32,13 @@ MIRROR = {
         'compare command; the actual block has no later reader of actual_path',
 }
 
+# one-sided parameters of two-sided transformations that are one-sided by design
+BALANCE = {
+    ('PandasComparison.check_dataframe', 'sortby'):
+        'the sort columns are one list resolved against the reference frame (sortby=True means the reference\'s columns, '
+        'documented); both frames are then sorted by that same list',
+}
+
 # set -> sequence conversions whose order cannot reach the result
 ORDER = {
     ('Extractor.merge_fixed_omnipresent_at_pos', 'list(frags)'):
